@@ -455,6 +455,20 @@ def _run(ctx: kernel.Ctx, prop: str, case: Dict[str, Any], loc: Dict[str, Any]) 
             cnt_after = counts(m2)
             changed = arch_after != arch_before
             when = f"op {oi} {name}({kwargs})"
+            # tree-shaped history: the network the mutated copy was cloned from is still alive and must not have noticed anything
+            if _arch(m) != arch_before:
+                ctx.report(f"{prop}/parent_disturbed", f"{when} on a clone changed the architecture description of the network it was cloned from", **loc)
+            elif c3:
+                rebuild(m, f"{when} on a clone; the network it was cloned from")
+            else:
+                m3 = m.clone()
+                m.eval(), m3.eval()
+                with torch.no_grad():
+                    if not same_output(out_before, forward(m, probes[1], decl)):
+                        ctx.report("C04/noop_changes_function", f"{when} on a clone changed the function of the network it was cloned from", **loc)
+                    elif not same_output(out_before, forward(m3, probes[1], decl)):
+                        ctx.report("C04/clone_different_output", f"{when} on a clone: a second clone() of the parent no longer reproduces the parent", after="sibling_mutation", **loc)
+            ctx.probe("parent_checked_after_child_mutation")
             if c3:
                 check_forward(m2, when)
                 check_bounds(cnt_before, cnt_after, when)
